@@ -53,7 +53,7 @@ impl VaultView {
 
 impl VaultWorld {
     pub fn build(cfg: &VaultCfg) -> Result<VaultWorld, String> {
-        let mut w = World::new_with_fund(&V_USERS, &["uvvv", "uother"], V_FUND);
+        let mut w = World::new_with_fund(&V_USERS, &["uvvv", "uvvvo"], V_FUND);
         w.add_account("collector-two");
         w.add_account("collector-three");
         w.setup_vault_network();
@@ -236,7 +236,7 @@ impl VaultWorld {
         let msg = vault::ExecuteMsg::Deposit { amount: Uint128::new(amount) };
         match &self.info {
             AssetInfo::NativeToken { denom } => {
-                let d = if mode == 5 { "uother".to_string() } else { denom.clone() };
+                let d = if mode == 5 { "uvvvo".to_string() } else { denom.clone() };
                 let funds = if given > 0 { vec![coin(given, d)] } else { vec![] };
                 self.w.exec(who, &vaultaddr, &msg, &funds)
             }
@@ -1129,7 +1129,7 @@ pub fn run_history(c: &VCase, rec: &Rec, value_clauses: bool) -> Result<HistoryS
             }
             VOp::WithdrawDirect { user, other_denom, amount } => {
                 let usr = vw.user(*user);
-                let denom = if *other_denom { "uother" } else { "uvvv" };
+                let denom = if *other_denom { "uvvvo" } else { "uvvv" };
                 let b = vw.w.bal(&vw.info, &usr);
                 let lp_b = vw.w.cw20_balance(&vw.lp, &usr);
                 let v = vw.vault.clone();
@@ -1282,7 +1282,7 @@ pub fn apply_ops_unjudged(vw: &mut VaultWorld, ops: &[VOp]) {
             VOp::WithdrawDirect { user, other_denom, amount } => {
                 let usr = vw.user(*user);
                 let v = vw.vault.clone();
-                let denom = if *other_denom { "uother" } else { "uvvv" };
+                let denom = if *other_denom { "uvvvo" } else { "uvvv" };
                 let _ = vw.w.exec(&usr, &v, &vault::ExecuteMsg::Withdraw {}, &[cosmwasm_std::coin(amount.u128(), denom)]);
             }
         }
